@@ -166,6 +166,11 @@ public:
     if(tables.size()!=coordinates.size())
       throw std::invalid_argument("The number of tables to stack ("+std::to_string(tables.size())+
                                   ") must match the number of coordinates ("+std::to_string(coordinates.size())+")");
+    //with the two padding tables the new dimension has tables.size()+2
+    //coefficients; a spline of order stackOrder needs at least stackOrder+1
+    if(stackOrder<0 || tables.size()+2<(size_t)stackOrder+1)
+      throw std::invalid_argument("Stacking "+std::to_string(tables.size())+" tables cannot support a spline of order "
+                                  +std::to_string(stackOrder)+" in the new dimension");
     int inputDim=tables.front()->get_ndim();
     for(auto table : tables){
       assert(table->get_ndim() == inputDim);
